@@ -37,10 +37,11 @@ const (
 	hkBig
 	hkDeep
 	hkBBReuse
+	hkDetMap
 	hkNum
 )
 
-var hkNames = []string{"Marshal", "MarshalWrite", "Unmarshal", "UnmarshalRead", "Format", "v1", "EncoderProgram", "Big", "Deep", "BytesBufferReuse"}
+var hkNames = []string{"Marshal", "MarshalWrite", "Unmarshal", "UnmarshalRead", "Format", "v1", "EncoderProgram", "Big", "Deep", "BytesBufferReuse", "DeterministicMap"}
 
 // HistSpec is one self-contained call. Everything it needs is fixed at plan
 // time from its own tape stream; executing it twice must give the same
@@ -95,7 +96,7 @@ func (o outcome) String() string {
 func (sc *Hist) planSpec(t *core.Tape, env *Env, idx int, beh map[int]peers.Behaviour) HistSpec {
 	s := t.S(fmt.Sprintf("call/%d/spec", idx))
 	sp := HistSpec{}
-	sp.Kind = s.Weighted(4, 3, 4, 3, 2, 1, 2, 1, 1, 1)
+	sp.Kind = s.Weighted(4, 3, 4, 3, 2, 1, 2, 1, 1, 1, 1)
 	sp.KindName = hkNames[sp.Kind]
 	sp.Opts = genArshalOpts(s)
 	switch sp.Kind {
@@ -185,6 +186,9 @@ func (sc *Hist) planSpec(t *core.Tape, env *Env, idx int, beh map[int]peers.Beha
 	case hkDeep:
 		sp.Sub = s.Draw(5)
 		sp.Desc = []string{"Marshal 1200-deep []any", "Marshal cyclic map", "Marshal 1100-deep pointer chain", "Unmarshal 1500-deep text", "Marshal deep chain whose leaf panics once, then again"}[sp.Sub]
+	case hkDetMap:
+		sp.Sub = 2 + s.Draw(40)
+		sp.Desc = fmt.Sprintf("Deterministic(true) over maps with %d keys built in two insertion orders", sp.Sub)
 	case hkBBReuse:
 		is := t.S(fmt.Sprintf("call/%d/input", idx))
 		sp.Input = string(gen.Text(is, gen.JSONCfg{MaxBytes: 64 + is.Draw(900), MaxDepth: 3}))
@@ -622,6 +626,13 @@ func (h *histRun) exec(idx int, sp *HistSpec) (o outcome) {
 		}
 	}
 	switch sp.Kind {
+	case hkDetMap:
+		out1, out2, err := DetMapBytes(sp.Sub)
+		extra := ""
+		if err != nil || !bytes.Equal(out1, out2) {
+			extra = fmt.Sprintf("DETERMINISTIC OUTPUT DEPENDS ON INSERTION ORDER: %s vs %s (err %v)", clip(out1, 80), clip(out2, 80), err)
+		}
+		return outcome{Out: string(out1), Extra: extra}
 	case hkBBReuse:
 		msg1 := `{"first":[` + strings.Repeat(`"aaaaaaaa",`, sp.Sub/11) + `1]}`
 		msg2 := sp.Input
@@ -747,6 +758,11 @@ func (sc *Hist) Run(t *core.Tape, env *Env) (any, []core.Violation) {
 		}
 		if strings.Contains(got[i].Extra, "CHANGED WHEN THE INPUT BUFFER WAS OVERWRITTEN") {
 			if report("C18", "C18/result-aliases-input-buffer", hkNames[p.Specs[i].Kind], "spec %d (%s): %s", i, p.Specs[i].Desc, got[i].Extra) {
+				return p, viols
+			}
+		}
+		if strings.HasPrefix(got[i].Extra, "DETERMINISTIC OUTPUT DEPENDS") {
+			if report("C18", "C18/deterministic-depends-on-insertion-order", "Marshal", "spec %d: %s", i, got[i].Extra) {
 				return p, viols
 			}
 		}
@@ -928,4 +944,55 @@ func RunRace(seed uint64, goroutines int, dur time.Duration) *RaceResult {
 	res.Calls = calls.Load()
 	res.WallS = time.Since(t0).Seconds()
 	return res
+}
+
+// DetMapBytes marshals the same key/value set, built in two different
+// insertion orders and through different map types, with Deterministic(true).
+func DetMapBytes(n int) ([]byte, []byte, error) {
+	type kv struct {
+		k string
+		v any
+	}
+	var kvs []kv
+	for i := 0; i < n; i++ {
+		k := fmt.Sprintf("key-%03d", (i*7919)%1000)
+		if i%5 == 0 {
+			k = []string{"é", "z", "A", "", "a/b", "😀", "~", "10", "9"}[i/5%9] + fmt.Sprint(i)
+		}
+		var v any = float64(i)
+		if i%4 == 1 {
+			v = map[string]any{"b": 1.0, "a": []any{nil, "x"}, "c": map[string]any{"z": true, "y": false}}
+		}
+		kvs = append(kvs, kv{k, v})
+	}
+	m1 := map[string]any{}
+	for _, e := range kvs {
+		m1[e.k] = e.v
+	}
+	m2 := make(map[string]any, 4*n)
+	for i := len(kvs) - 1; i >= 0; i-- {
+		m2[kvs[i].k] = kvs[i].v
+	}
+	for i := 0; i < n; i++ { // churn: delete and re-insert so that the internal layout differs
+		if i%3 == 0 {
+			delete(m2, kvs[i].k)
+		}
+	}
+	for i := 0; i < n; i++ {
+		if i%3 == 0 {
+			m2[kvs[i].k] = kvs[i].v
+		}
+	}
+	a, err := json.Marshal(m1, json.Deterministic(true))
+	if err != nil {
+		return nil, nil, err
+	}
+	b, err := json.Marshal(struct{ M map[string]any }{m2}, json.Deterministic(true))
+	if err != nil {
+		return a, nil, err
+	}
+	if len(b) > 6 {
+		b = b[5 : len(b)-1] // strip {"M": and }
+	}
+	return a, b, nil
 }
